@@ -118,7 +118,7 @@ fn judge(ctx: &mut Ctx, case: &Case, what: &str, r: Result<BigDecimal, String>, 
     let v0 = ctx.total_violations();
     let g = judge_inner(ctx, case, what, r, x, p);
     if let Some(g) = &g {
-        if what == "inverse_with_context" && ctx.want_event() && x.tok().len() < 400 && x.s.abs() < 1500 {
+        if what == "inverse_with_context" && ctx.want_event() && x.tok().len() < 400 && x.s.unsigned_abs() < 1500 {
             let held = ctx.total_violations() == v0;
             ctx.log("inverse", &[x.tok()], serde_json::json!({"p": p}), g.tok(), held);
         }
